@@ -32,7 +32,11 @@ RULE_ADDED = (
               ' '
               'Round 9: 12% of the authorized cases are preceded, on the same manager, by a sig'
               'n refused late (proof node of 256 bytes, 256 nodes, input beyond the last, empty'
-              ' receipt, trailing tx byte). ')
+              ' receipt, trailing tx byte). '
+              ' '
+              'Round 10: transactions of exactly chosen sizes (around 2^16 and 2^17; one of abo'
+              'ut 2^24 bytes per run, over the TCP transport); hashes with zero bytes at an end'
+              '. ')
 RULE = RULE + " " + RULE_ADDED.strip()
 ASSUMPTIONS = [
     "device model and fake HID transport are trusted (pv/simdev); they follow the framing only",
@@ -50,9 +54,10 @@ FLOORS = {"quick": {"evaluations": 500, "stream_comparisons": 1200, "success_rep
 
 def shards(tier, seed):
     if tier == "quick":
-        return [{"seed": seed * 1000 + i, "n": 120, "max_in": 4, "max_out": 4} for i in range(16)]
-    return [{"seed": seed * 1000 + i, "n": 1300, "max_in": 20, "max_out": 20, "big": True}
-            for i in range(32)]
+        return [{"seed": seed * 1000 + i, "n": 120, "max_in": 4, "max_out": 4,
+                 "sized_16m": i == 3} for i in range(16)]
+    return [{"seed": seed * 1000 + i, "n": 1300, "max_in": 20, "max_out": 20, "big": True,
+             "sized_16m": i % 4 == 3} for i in range(32)]
 
 
 def gen_policy(rng):
@@ -72,7 +77,15 @@ def gen_case(rng, spec, i):
     c["v1"] = v1
     c["form"] = form
     c["seed"] = rng.getrandbits(48)
-    c["spec"] = {k: spec[k] for k in ("max_in", "max_out", "big") if k in spec}
+    c["spec"] = {k: spec[k] for k in ("max_in", "max_out", "big", "sized_16m") if k in spec}
+    if form != "hash" and i % 40 == 7:
+        marks = [2 ** 16, 2 ** 16, 0xffff, 2 ** 17]
+        if spec.get("sized_16m") and i == 7:
+            marks = [2 ** 24]
+        c["sized_tx"] = rng.choice(marks) + rng.choice([-8, -7, -1, 0, 1, 2, 9])
+        if c["sized_tx"] > 2 ** 20:
+            # (64-byte HID reports make megabytes slow: over the TCP transport)
+            c["platform"] = rng.choice(["tcp", "sgx"])
     return c
 
 
@@ -98,8 +111,14 @@ def build(c, spec, prev=None):
     else:
         pool = AUTH_PATHS * 3 + NOAUTH_PATHS
         key = rng.choice(pool)
+        if c.get("sized_tx"):
+            key = rng.choice(AUTH_PATHS)
         tx = btctx.gen_tx(rng, max_in=spec["max_in"], max_out=spec["max_out"], big=big,
                           edges=True if big else "scripts")
+        if c.get("sized_tx"):
+            # a transaction of exactly so many bytes (around 2^16 / 2^24: the documents
+            # bound no transaction's size, the wire format gives its length four bytes)
+            tx = btctx.gen_sized_tx(rng, total_len=c["sized_tx"]) or tx
         if c.get("same_tx_as_previous") and prev is not None and "tx" in prev:
             tx = prev["tx"]
         nin = len(tx["ins"])
@@ -165,6 +184,11 @@ def build(c, spec, prev=None):
         else:
             out["sign_policy"]["late"] = {part: rng.choice([1, 2, 3, 4, 5, 8, 20])}
             out["hostile"] = "late:" + part
+    if c.get("sized_tx", 0) > 2 ** 20:
+        # (megabytes in one-byte pieces would take hours: the largest requests only)
+        out["chunk"] = ChunkPolicy("const", rng.choice([255, 255, 240, 200]),
+                                   random.Random(rng.getrandbits(32)))
+        out["sign_policy"].pop("early_tail", None)
     out["exchange_fault"] = None
     if form != "hash" and out["hostile"] is None and rng.random() < 0.06:
         # one exchange of the dialogue fails (error status in the device's range, or no
